@@ -25,6 +25,9 @@ func ParseRequests(msg []byte) ([]*ParsedRequest, error) {
 			Params: req.P,
 			Error:  req.err,
 		}
+		if req.err == nil && req.M == "" {
+			out[i].Error = errEmptyMethod // not a request at all
+		}
 	}
 	return out, err
 }
